@@ -1,0 +1,41 @@
+//go:build verif
+
+package antispam
+
+// Contracts for the verification harness under /verif (comment-only file).
+//
+// C20, antispam part (sequential contracts; the unsynchronised counter updates
+// under concurrent readers of one source are outside them).
+
+// IsSpam: a disabled antispam never drops; each legacy exception is matched
+// against the event bytes, or against the source name when check_source_name
+// is set, and a matching exception never drops; the counter of a source is
+// incremented at most once per call.
+
+//@ func (*Antispammer).IsSpam
+//@   ghost g_exc bool = false
+//@   ghost g_incs int = 0
+//@   ensures old(a.rules == nil && a.threshold == -1) ==> !result
+//@   ensures g_exc ==> !result
+//@   ensures g_incs <= 1
+//@   loop 1 invariant 0 <= i && !g_exc && g_incs == 0
+//@   loop 2 invariant !g_exc && g_incs == 0
+//@   callee Match(data) (r)
+//@     requires !e.CheckSourceName ==> data == event
+//@     requires e.CheckSourceName ==> len(data) == len(name) && seqeq(data, name, 0)
+//@     pure
+//@     set g_exc := r
+//@   callee Int32.Inc() (r)
+//@     requires g_incs == 0 && !isNewSource
+//@     havoc
+//@     set g_incs := g_incs + 1
+
+// Maintenance: per source, the new counter is min(max(x - T, 0), U*T) for the
+// source's own stored threshold T (0 = forget the source).
+
+//@ func (*Antispammer).Maintenance
+//@   ghost gx int = 0
+//@   assert at "source.counter.Swap(int32(x))" x == min(max(gx - threshold, 0), a.unbanIterations * threshold) || (gx - threshold > a.unbanIterations * threshold && x == a.unbanIterations * threshold)
+//@   callee Load() (r)
+//@     pure
+//@     set gx := r
